@@ -14,6 +14,7 @@ import (
 
 	"github.com/bitcoin-sv/block-headers-service/config"
 	"github.com/bitcoin-sv/block-headers-service/transports/p2p/addrmgr"
+	"github.com/bitcoin-sv/block-headers-service/transports/p2p/connmgr"
 	"github.com/bitcoin-sv/block-headers-service/transports/p2p/peer"
 	"github.com/rs/zerolog"
 )
@@ -55,6 +56,12 @@ func VerifNewServerPeer(s *VerifServer, p *peer.Peer, persistent bool, log *zero
 	sp.Peer = p
 	return sp
 }
+
+// VerifSetConnManager wires a connection manager into the server, as newServer does.
+func VerifSetConnManager(s *VerifServer, cm *connmgr.ConnManager) { s.connManager = cm }
+
+// VerifSetConnReq is `sp.connReq = c` of outboundPeerConnected.
+func VerifSetConnReq(sp *VerifServerPeer, c *connmgr.ConnReq) { sp.connReq = c }
 
 // VerifAddPeer calls handleAddPeerMsg.
 func VerifAddPeer(s *VerifServer, st *VerifPeerState, sp *VerifServerPeer) bool {
